@@ -449,7 +449,14 @@ impl<'tcx> Ex<'tcx> {
                 f.push(("ops", jarr(&o)));
                 jobj(&[("agg", jobj(&f))])
             }
-            Rvalue::Discriminant(p) => jobj(&[("discr", self.place(body, p))]),
+            Rvalue::Discriminant(p) => {
+                let pty = p.ty(&body.local_decls, self.tcx).ty;
+                let adt = match pty.kind() {
+                    ty::Adt(a, _) => jstr(&self.path(a.did())),
+                    _ => jnull(),
+                };
+                jobj(&[("discr", self.place(body, p)), ("adt", adt)])
+            }
             Rvalue::Repeat(op, n) => {
                 let nn = n
                     .try_to_target_usize(self.tcx)
